@@ -13,7 +13,9 @@ from .. import sessionlab as sl
 from ..brokermachine import close
 from ..core import product
 from ..env import scratch_dir
-from .c08 import MARKET_DAYS, BASES, SCHEDULES
+from .c08 import BASES, SCHEDULES
+
+MARKET_DAYS = rm.bdays(datetime.date(2020, 2, 20), datetime.date(2020, 6, 12))
 
 FIRST = datetime.date(2020, 2, 24)
 ASSETS = ['EQ:AAA', 'EQ:BBB']
@@ -37,6 +39,10 @@ def items(tier):
             for n in lengths:
                 out.append({'start': iso(d0, st), 'end': iso(d0 + datetime.timedelta(days=n), '23:59'),
                             'btimes': btimes, 'modes': modes})
+    for off in (0, 3):
+        d0 = FIRST + datetime.timedelta(days=off)
+        out.append({'start': iso(d0, '14:30'), 'end': iso(d0 + datetime.timedelta(days=70), '23:59'), 'btimes': btimes,
+                    'modes': modes, 'long': True})
     return out
 
 
@@ -66,6 +72,17 @@ def session_cfgs(item):
                     cfg['leverage'] = 1.5
                     cfg['alpha'] = {'kind': 'fixed', 'weights': {'EQ:AAA': 0.6, 'EQ:BBB': -0.4}}
                 yield cfg
+
+
+def long_cfgs(item):
+    """70 calendar days: one rebalance followed by many weeks without one (tables must carry it forward)"""
+    for burn in (None, iso(datetime.date.fromisoformat(item['start'][:10]) + datetime.timedelta(days=9), '14:30')):
+        for kind, wd in (('buy_and_hold', None), ('end_of_month', None), ('weekly', 'FRI')):
+            cfg = {'start': item['start'], 'end': item['end'], 'burn_in': burn, 'assets': ASSETS,
+                   'universe': {'kind': 'static'}, 'alpha': {'kind': 'fixed', 'weights': WEIGHTS},
+                   'rebalance': kind, 'weekday': wd, 'long_only': True, 'buffer': 0.05,
+                   'fee': ['pct', '0.001', '0.0005'], 'cash': CASH}
+            yield cfg
 
 
 def check(cfg, market, handler):
@@ -162,6 +179,8 @@ def per_item(item):
         sl.write_market(d, market)
         handler, _ = sl.load_handler(d, market)
         cfgs = list(session_cfgs(item))
+        if item.get('long'):
+            cfgs = list(long_cfgs(item))
         # ... and, after all of them, the sessions without burn-in once more: a session must not depend on the
         # sessions (with other burn-ins, same dates and schedule) that ran before it in the process
         cfgs += [c for c in cfgs if c['burn_in'] is None]
